@@ -28,6 +28,7 @@ def run(program, res, tier):
     res.rule("C17-S2", "transform applies blocks_in first, then blocks_out, chaining the result (Python and SQL)")
     res.rule("C17-S3", "compose applies `other` first, then `self`")
     res.rule("C17-S4", "both data models implement the two conversions with the abstract signature")
+    res.rule("C17-S5", "Pandas conversions relabel columns by position only after ordering them by the record specification")
     rm = program.cls("cdata", "RecordMap")
     # ---- S1
     inv = rm.methods.get("inverse")
@@ -210,3 +211,34 @@ def run(program, res, tier):
                 res.fail_at("C17-S4", impl, f"returns-none:{mname}", f"{cname}.{mname} can finish without returning the converted table")
             else:
                 res.ok("C17-S4", f"{cname}.{mname} returns a value on every path")
+
+    # ---- S5 positional relabelling needs specification order
+    for mname, spec in (("blocks_to_rowrecs", "blocks_in"), ("rowrecs_to_blocks", "blocks_out")):
+        impl = program.method("pandas_base", "PandasModelBase", mname, inherited=False)
+        positional = [st for st in ast.walk(impl.node) if isinstance(st, ast.Assign) and isinstance(st.targets[0], ast.Attribute)
+                      and st.targets[0].attr == "columns"]
+        if not positional:
+            res.ok("C17-S5", f"PandasModelBase.{mname}: no positional column relabelling", nontrivial=False)
+            continue
+        gi = cfgmod.build(impl.node)
+        di = depsmod.Deps(gi, impl.params())
+        n_sel = 0
+        for node in gi.stmt_nodes(("stmt",)):
+            for sub in ast.walk(node.stmt):
+                if isinstance(sub, ast.Subscript) and isinstance(sub.value, ast.Attribute) and sub.value.attr == "loc" \
+                        and unparse(sub.value.value) == "data" and isinstance(sub.slice, ast.Tuple) and len(sub.slice.elts) == 2:
+                    n_sel += 1
+                    cols = sub.slice.elts[1]
+                    roots = di.roots_at(node, cols)
+                    if "data" in roots or depsmod.has_root(roots, "data.columns"):
+                        res.fail_at("C17-S5", impl, f"column-order-from-input:{mname}",
+                                    f"`{unparse(sub)[:90]}` takes the column order from the input frame; {mname} later relabels columns "
+                                    f"by position (`{unparse(positional[0])[:50]}`), so a frame whose value columns are ordered "
+                                    f"differently from the control table gets its values under the wrong names", sub)
+                    elif depsmod.has_root(roots, spec):
+                        res.ok("C17-S5", f"PandasModelBase.{mname}: `{unparse(sub)[:60]}` orders the columns by the record specification")
+                    else:
+                        res.abstain("C17-S5", f"{mname}: {unparse(sub)[:60]}", "column list of unknown origin")
+        if n_sel == 0:
+            res.fail_at("C17-S5", impl, f"no-column-ordering:{mname}",
+                        f"{mname} relabels columns by position but never selects the input's columns in specification order")
